@@ -339,7 +339,11 @@ def rule_c13(ctx):
                         for t in ([atoms["https"]] if atoms["https"] is not None else [True, False]):
                             vals.add(not (h and (s or t)))
                 want_unset = vals
-            if has_unset not in want_unset:
+            # keeping the header under SameHost without having compared anything of the two URIs on this path (e.g. because of
+            # the form of the Location text) is a decision taken blind
+            blind = (p != "Never" and not has_unset and atoms["host"] is None and atoms["scheme"] is None and atoms["https"] is None
+                     and not any("Uri::authority" in repr(k) or "Uri::scheme" in repr(k) or "Authority::host" in repr(k) for k in o.state.facts))
+            if has_unset not in want_unset or blind:
                 bad.append("policy=%s host_eq=%s scheme_eq=%s target_https=%s: authorization %s" % (
                     p, atoms["host"], atoms["scheme"], atoms["https"], "suppressed" if has_unset else "KEPT"))
     ctx.check(not bad and host_seen and scheme_seen and https_seen, "R13.2", "authorization-table",
@@ -837,6 +841,67 @@ def rule_c13_list_append_only(ctx):
               detail=roots)
 
 
-C13_RULES = [rule_c13, rule_c13_filter, rule_c13_list_append_only]
-C14_RULES = [rule_c14, rule_c14_last_location]
+def rule_request_carried_over(ctx):
+    """R14.6: a followed redirect re-sends *the caller's request*: the function that hands the request to the next flow returns
+    the stored request itself - method, URI, version, header fields - with its body unwrapped, not a rebuilt message; and
+    the conversions between the call's typestates move the amended request along unchanged (override URI, suppression list
+    and added headers included)"""
+    R = "R14.6"
+    prog = ctx.prog
+    from .interp import mkproj, PathLimit, Unsupported
+    tk = prog.find("AmendedRequest::<Body>::take_request")
+    if ctx.require(tk, R, "entry:take_request", "AmendedRequest::take_request"):
+        I = mk_interp(prog)
+        S = ("OBJ", "self")
+
+        def init(st):
+            st.write_leaf(S, (), ("term", ("in", "self")))
+        outs = [o for o in I.run(tk, [ref(S)], init) if o.kind == "return"]
+        bad = []
+        want = ("term", mkproj(("in", "self"), (("f", "request"),)))
+        for o in outs:
+            if o.ret.get(()) != want:
+                bad.append("the returned message is %s, not the stored request" % repr(o.ret.get(()))[:100])
+            for pth, l in o.ret.items():
+                if pth and pth[0] != ("f", "@body"):
+                    bad.append("part %s of the returned message is set separately (%s)" % (repr(pth)[:40], repr(l)[:60]))
+            bl = o.ret.get((("f", "@body"),))
+            if bl != ("term", mkproj(("in", "self"), (("f", "request"), ("f", "@body"), ("v", "Some"), ("f", "0")))):
+                bad.append("the body of the returned message is %s" % repr(bl)[:80])
+        ctx.check(len(outs) >= 1 and not bad, R, "take-request", "the request handed to the next flow is the stored request itself (method, "
+                  "URI, version and fields untouched) with its body unwrapped", loc=body_loc(tk), detail=sorted(set(bad))[:3])
+    # typestate conversions of the call keep the amended request
+    n = 0
+    bad = []
+    for b in prog.nonderived_bodies():
+        imp = b.impl_self or ""
+        if not imp.startswith("client::call::Call<") or b.arg_count < 1 or b.kind != "AssocFn":
+            continue
+        ty0 = b.locals[1]["ty"]
+        ret = b.locals[0]["ty"]
+        if ty0.startswith("&") or "Call<" not in ty0 or "Call<" not in ret:
+            continue          # only by-value self -> Call conversions
+        I = mk_interp(prog, max_states=20000)
+        try:
+            outs = I.run(b, [{(): ("term", ("in", "call"))}] + [{(): ("term", ("in", "a%d" % i))} for i in range(1, b.arg_count)], None)
+        except (PathLimit, Unsupported):
+            continue
+        n += 1
+        want = ("term", mkproj(("in", "call"), (("f", "request"),)))
+        for o in outs:
+            if o.kind != "return":
+                continue
+            leaves = [(pth, l) for pth, l in o.ret.items() if pth and pth[-1] == ("f", "request")]
+            sub = [(pth, l) for pth, l in o.ret.items() if any(e == ("f", "request") for e in pth) and pth[-1] != ("f", "request")]
+            for pth, l in leaves:
+                if l != want:
+                    bad.append("%s: the converted call carries %s as its request" % (b.short, repr(l)[:100]))
+            if sub:
+                bad.append("%s: part of the request is replaced (%s)" % (b.short, repr(sub[0][0])[:60]))
+    ctx.check(n >= 3 and not bad, R, "conversions-keep-request", "the %d by-value conversions between the call's typestates move the amended "
+              "request along unchanged" % n, detail=sorted(set(bad))[:3])
+
+
+C13_RULES = [rule_c13, rule_c13_filter, rule_c13_list_append_only, rule_request_carried_over]
+C14_RULES = [rule_c14, rule_c14_last_location, rule_request_carried_over]
 C15_RULES = [rule_c15_table, rule_c15_detection, rule_c15_status_origin, rule_c15_status_kept]
